@@ -366,3 +366,7 @@ M("C12", "dec-x-chr-utf8", F, X_BRANCH, X_BRANCH.replace("buffer.append(int(hexs
 M("C12", "dec-u-four-digits-chr-latin1", F, U_BRANCH, (U_FOUR % "").replace("buffer.append(int(hexstr, 16) )", "buffer.extend(chr(int(hexstr, 16)).encode(\"latin-1\"))"), "C12.R2")
 M("C12", "dec-plain-encode-utf8", F, ELSE_ORD, "            else:\n                buffer.extend(c.encode(\"utf-8\"))\n", "C12.R2")
 M("C12", "dec-u-low-pair-chr-ascii", F, U_BRANCH, U_BRANCH.replace("buffer.append(int(hexstr, 16))", "buffer += chr(int(hexstr, 16)).encode(\"ascii\")"), "C12.R2")
+# an escaper written by hand on the fast path (backslash doubled by a replacement): not worked out - undecided, never violated
+T("C12", "twin-enc-undecided-fast-path-own-backslash-escape", F, ENC_HEAD,
+  FASTPATH % ("        if value.isascii() and value.decode(\"ascii\").isprintable():\n"
+              "            return '\"' + value.decode(\"ascii\").replace(\"\\\\\", \"\\\\\\\\\").replace('\"', '\\\\\"') + '\"'\n"))
